@@ -26,7 +26,7 @@ META = {
         "observed in >=2 invocations with a non-None value or an exception and the two runs have different invocation "
         "counts; distinct = (program shape, both invocation-outcome patterns). Second stage: the same programs with steps that "
         "return another value every time their function really runs (tickets), a third of them with map/parallel that may decide early, "
-        "judged by rule (a) alone. Third stage: seven fixed programs (empty error messages, tolerated failures inside batch results, oversized "
+        "judged by rule (a) alone. Third stage: eight fixed programs (each under delta/full responses and histories that arrive on later pages only) (empty error messages, tolerated failures inside batch results, oversized "
         "early-decided batches with branches that never started, nested batch results) run, suspended and replayed."
     ),
     "assumptions": [
@@ -109,6 +109,8 @@ DIRECTED = [
        "cfg": {"max_concurrency": 1, "completion": {"min": 1, "tol": 3, "pct": None}, "explicit": True}}, _W, _fs(4), _W], {"checkpoint": 300}),
     ("early decision (failure tolerance) with a never-started item, map above the limit",
      [{"op": "map", "items": [1, 2, 3, 4], "body": [_ff("boom")], "cfg": {"max_concurrency": 1, "completion": {"min": None, "tol": 0, "pct": None}}}, _W, _fs(4)], {"checkpoint": 60}),
+    ("fresh-value steps replayed from a history that arrives on later pages only (empty first page)",
+     [{"op": "step", "beh": {"kind": "ticket"}, "sem": "least", "retry": {"kind": "none"}}, _W, {"op": "step", "beh": {"kind": "ticket"}, "sem": "most", "retry": {"kind": "none"}}, _W, _fs(1)], {}),
     ("nested batch result returned by a branch", [{"op": "parallel", "unwrap": True, "branches": [[{"op": "map", "items": [1, 2], "body": [_fs(7)], "cfg": {"max_concurrency": None, **_TOL}}], [_fs(2)]], "cfg": _TOL}, _W, _fs(1)], {}),
 ]
 
@@ -117,8 +119,8 @@ def _directed_stage(ctx):
     for i, (label, body, limits) in enumerate(DIRECTED):
         if ctx.nshards > 1 and i % ctx.nshards != ctx.shard % ctx.nshards:
             continue
-        for resp in ("delta", "full"):
-            case = {"prog": {"body": body}, "limits": limits, "backend": {"response": resp}, "plan": {"crashes": []}, "sched": [{"mode": "seq"}], "line": []}
+        for be in ({"response": "delta"}, {"response": "full"}, {"response": "delta", "first_page": -1, "state_page": 1}, {"response": "delta", "first_page": 0, "empty_page_at": 0, "state_page": 2}):
+            case = {"prog": {"body": body}, "limits": limits, "backend": be, "plan": {"crashes": []}, "sched": [{"mode": "seq"}], "line": []}
             WC.report_case(ctx, case, PROPS, nontrivial=lambda r, c: None, classes=lambda r, c: ["directed:" + label], extra_monitors=())
 
 
